@@ -266,8 +266,21 @@ def execute(prop_cfg, ops, tag="run"):
     env.setdefault("GOMEMLIMIT", "8GiB")
     rc, log = run([prop_cfg["harness_bin"], opsf, trf] + prop_cfg.get("harness_args", []), env=env,
                   timeout=prop_cfg.get("timeout", 3600))
+    crashed = None
     if rc != 0:
-        raise BuildError("harness %s exited with %d" % (prop_cfg["harness"], rc), log[-4000:])
+        # the harness process died (fatal runtime error, os.Exit, kill): the op it was executing
+        # is the first one without an answer in the (line-flushed) trace
+        done = []
+        if os.path.exists(trf):
+            with open(trf) as f:
+                done = [l for l in f.read().split("\n") if l.strip() and not l.startswith("#") and " => " in l]
+        real_ops = [o for o in ops if o.strip() and not o.startswith("#")]
+        if len(done) >= len(real_ops):
+            raise BuildError("harness %s exited with %d" % (prop_cfg["harness"], rc), log[-4000:])
+        why = [l for l in log.splitlines() if l.startswith(("fatal error", "panic:", "signal:"))]
+        crashed = "crash:" + (why[0][:120].replace(" ", "_") if why else "exit-%d" % rc)
+        with open(trf, "w") as f:
+            f.write("\n".join(done + ["%s => %s" % (real_ops[len(done)], crashed)]) + "\n")
     with open(trf) as f:
         tr = split_trace(f.readlines())
     with open(trf, "rb") as f:
